@@ -97,7 +97,10 @@ def build_coq():
 def _regen_fake_arms():
     import fake_translate
     fake_translate.regenerate(REPO, COQ)
-_gen_hooks = [_regen_fake_arms]
+def _regen_src_consts():
+    import const_translate
+    const_translate.regenerate(REPO, COQ)
+_gen_hooks = [_regen_fake_arms, _regen_src_consts]
 def gen_hook():
     for h in _gen_hooks:
         h()
